@@ -536,6 +536,7 @@ func (w *World) recheck(pk *Pkg) error {
 		if len(enss) == 0 {
 			enss = []string{"true"}
 		}
+		fmt.Fprintf(&sb, "func %s(%s) {}\n", d.Name, d.Params)
 		fmt.Fprintf(&sb, "func %s__req(%s) bool { return %s }\n", d.Name, d.Params, strings.Join(reqs, " && "))
 		fmt.Fprintf(&sb, "func %s__ens(%s) bool { return %s }\n", d.Name, d.Params, strings.Join(enss, " && "))
 	}
